@@ -475,6 +475,41 @@ static void owners_left_to_the_collector(void) {
   OUT("owners dropped: %d, values read %" PRId64 " in %" PRId64 " items, children finalised twice %ld", n, total, count, kid_twice);
 }
 
+/* ---------- heap views whose inputs nothing else refers to ----------
+** A helper builds the inputs and returns only the view (Zip, Slice, Filter, Map, and a Zip of views): from then on
+** the inputs live through the view alone.  Garbage is produced until collections have run; the views then yield what
+** they yield in a build without collector. */
+static var __attribute__((noinline)) make_view(int kind, int n) {
+  static char fnbuf[sizeof(struct Header) + sizeof(struct Function)];
+  static var odd_fn;                  /* outlives the helper: a Filter keeps the Function object it was given */
+  if (odd_fn == NULL) { odd_fn = header_init(fnbuf, Function, AllocStatic); ((struct Function*)odd_fn)->func = odd_only; }
+  var a = new(Array, Int), b = new(List, Int);
+  for (int i = 0; i < n; i++) { push(a, $I(i * 7 + kind)); push(b, $I(1000 - i)); }
+  switch (kind) {
+    case 0: return new(Zip, a, b);
+    case 1: return new(Slice, a, $I(1), $I(n - 1), $I(2));
+    case 2: return new(Filter, a, odd_fn);
+    case 3: return new(Slice, new(Zip, b, a), $I(0), $I(n / 2));
+    default: return new(Zip, a, new(Slice, b, $I(0), $I(n), $I(3)), new(Range, $I(n)));
+  }
+}
+static void __attribute__((noinline)) scrub_stack(void) { volatile char pad[4096]; for (size_t i = 0; i < sizeof pad; i++) { pad[i] = 0; } }
+static void __attribute__((noinline)) churn_garbage(int n) { for (int i = 0; i < n; i++) { var g = new(Array, Int, $I(i), $I(i + 1)); (void)g; var h = new(String, $S("garbage")); (void)h; } }
+static void views_over_unshared_inputs(void) {
+  var views[5]; int n = 6 + (int)below(20);
+  for (int k = 0; k < 5; k++) { views[k] = make_view(k, n); }
+  scrub_stack();
+  churn_garbage(1500 + (int)below(1500));
+  for (int k = 0; k < 5; k++) {
+    int64_t sum = 0, items = 0;
+    foreach (x in views[k]) {
+      if (type_of(x) is Int) { sum += c_int(x); } else { foreach (y in x) { sum += c_int(y); } }
+      items++;
+    }
+    OUT("view %d over %d unshared inputs: %" PRId64 " items, sum %" PRId64, k, n, items, sum);
+  }
+}
+
 static void files(const char* dir_tag) {
   char path[128]; snprintf(path, sizeof path, "c18-%s.tmp", dir_tag);
   var f = new(File, $S(path), $S("w+"));
@@ -502,7 +537,7 @@ int main(int argc, char** argv) {
   int rounds = 3 + (int)below(3);
   for (int i = 0; i < rounds; i++) {
     OUT("--- round %d", i);
-    sequences(); maps(); strings_and_formats(); exceptions(); values_and_types(); user_types(); embedded_strings(); thread_storage(); pooled_objects(); owners_left_to_the_collector(); files(tag);
+    sequences(); maps(); strings_and_formats(); exceptions(); values_and_types(); user_types(); embedded_strings(); thread_storage(); pooled_objects(); owners_left_to_the_collector(); views_over_unshared_inputs(); files(tag);
   }
   OUT("done");
   return 0;
